@@ -307,13 +307,6 @@ LEAN_FILES = ['PnVerif/Model/Abuf.lean', 'PnVerif/Lemmas/AbufLemmas.lean', 'PnVe
 
 def run_check(tier, seed):
     V = Verdict(PROP, tier, seed)
-    if os.environ.get('VERIF_FINDINGS_PREVIEW'):
-        # builder-side preview only: also honour the finding lines PROPOSED in findings/C13.txt
-        import re as _re
-        for _l in open(os.path.join(VERIF, 'findings', 'C13.txt')):
-            _m = _re.match(r'finding:\s+property=(\S+)\s+sig=(\S+)\s+(.*)$', _l.strip())
-            if _m and _m.group(1) == PROP:
-                V.known.append(dict(sig=_m.group(2), text=_m.group(3)))
     rng = SplitMix64(seed * 7777 + 13)
     V.assumptions = [
         'MPI_Pack/MPI_Unpack with the buffer datatype / imap datatype gather and scatter exactly the type map (not modelled; the harness checks the resulting bytes)',
